@@ -14,6 +14,12 @@ import re
 from . import common as C
 
 PID = "C05"
+META = {
+    "category": "proof",
+    "technique": "Lean 4 invariant proof over a step-level transition system (all interleavings, any number of threads) + deterministic-schedule correspondence with the real BiasedRc",
+    "level_text": "Theorem rc_safe (SteelVerif/C05/Props.lean): for every schedule - every history of create/clone/drop/move/unique/unwrap/count/register/merge/exit operations by any number of threads and every interleaving of their atomic shared accesses - the model of steel-rc's biased reference counting never accesses the object after the free, frees it at most once and only when no reference is held, and grants exclusive access only to a sole holder. The model is hand-written; it is tied to crates/steel-rc/src/lib.rs on every run by executing the real BiasedRc under cfg(steel_verif) yield points on the same schedules (corpus, all operation-level histories of a given depth, random step-level schedules) and comparing the observable protocol state after every line.",
+    "level_note": "Trusted: Lean kernel (axioms propext, Classical.choice, Quot.sound only), the harness/driver/comparison, sequentially consistent atomics (the code uses Relaxed/AcqRel), atomic reads of the non-atomic owner field, one object per run, no thread-id reuse. Liveness (destroyed eventually) is checked on drained schedules only, not proved.",
+}
 TOUCHING = ("clone", "drop", "unique", "unwrap", "count")
 
 
